@@ -417,10 +417,10 @@ Proof. exact counts_per_sample_stats_bridge_partial. Qed.
 Print Assumptions counts_per_sample_stats_is_source_partial.
 
 (* the hypotheses follow from wf_r and are satisfiable *)
-Theorem counts_per_sample_stats_is_source_wf : forall binary rt, wf_r rt ->
+Theorem counts_per_sample_stats_wf_is_source_partial : forall binary rt, wf_r rt ->
   compute_counts_per_sample_stats rt binary = r_stats binary rt.
 Proof. exact counts_per_sample_stats_bridge_wf. Qed.
-Print Assumptions counts_per_sample_stats_is_source_wf.
+Print Assumptions counts_per_sample_stats_wf_is_source_partial.
 Example counts_per_sample_stats_hyp_sat : NoDup (r_sids ex_rt) /\ dims_ok ex_rt /\
   compute_counts_per_sample_stats ex_rt false = (0, 7, (7, 2), (14, 4), [(1, 5); (2, 2); (3, 0); (4, 7)])%Z.
 Proof. destruct ex_rt_wf as (_ & N & D & _). split; [exact N|]. split; [exact D|]. vm_compute. reflexivity. Qed.
@@ -436,3 +436,25 @@ Print Assumptions is_empty_is_source.
 Theorem get_table_density_is_source : forall rt, get_table_density rt = r_density rt.
 Proof. exact get_table_density_bridge. Qed.
 Print Assumptions get_table_density_is_source.
+
+(* _summarize_table as tools/py2v_sum regenerates it from biom/cli/table_summarizer.py
+   (Gen/SummaryReportGen.v over Gen/SumReportPrelude.v: a line = its label and its figure, text not
+   modelled; it calls the regenerated compute_counts_per_sample_stats and get_table_density above):
+   its labelled figures, in the order listed, are the header lines of the hand model's r_report, its
+   detail lines are r_report's detail lines, and its title / blank lines are the four expected ones
+   (0 blank, 1 Sample/observations summary, 2 Observations/sample summary, 3 Counts/sample summary,
+   4 Observations/sample detail, 5 Counts/sample detail).  For every well-formed representation, in
+   each of the four modes. *)
+From BiomV Require Import Gen.SumReportPrelude Gen.SummaryReportGen Proofs.GenBridgeSummaryReportProofs.
+Theorem summarize_table_is_source_partial : forall q o rt, wf_r rt ->
+  figures (summarize_table rt q o) = fst (r_report q o rt) /\
+  details (summarize_table rt q o) = snd (r_report q o rt) /\
+  titles (summarize_table rt q o) = ([0; if q then (if o then 1 else 2) else 3; 0; if q then 4 else 5])%Z.
+Proof. exact summarize_table_bridge. Qed.
+Print Assumptions summarize_table_is_source_partial.
+(* the hypothesis is satisfiable (ex_rt_wf), and the regenerated report computes *)
+Example summarize_table_hyp_sat : wf_r ex_rt /\
+  figures (summarize_table ex_rt false false) = fst (r_report false false ex_rt) /\
+  map fst (figures (summarize_table ex_rt false true)) = [1; 2; 3; 4; 5; 6; 7; 8; 9; 10; 11]%Z /\
+  details (summarize_table ex_rt true false) = [(3, 0); (1, 1); (2, 1); (4, 1)]%Z.
+Proof. split; [exact ex_rt_wf|]. vm_compute. repeat split; reflexivity. Qed.
